@@ -130,8 +130,16 @@ class ShapeEval(AxisEval):
                     return last
             return last
         if isinstance(e, ast.Compare) and len(e.ops) == 1:
-            a, b = self.py(e.left), self.py(e.comparators[0])
             op = e.ops[0]
+            if isinstance(op, (ast.Is, ast.IsNot)) and isinstance(e.comparators[0], ast.Constant) and e.comparators[0].value is None:
+                try:
+                    a = self.py(e.left)
+                    r = a is None
+                except Unknown:
+                    self.ev(e.left)  # a tensor: not None
+                    r = False
+                return r if isinstance(op, ast.Is) else not r
+            a, b = self.py(e.left), self.py(e.comparators[0])
             if isinstance(a, (int, float)) and isinstance(b, (int, float)):
                 return {ast.Eq: a == b, ast.NotEq: a != b, ast.Lt: a < b, ast.LtE: a <= b, ast.Gt: a > b, ast.GtE: a >= b}.get(type(op), None) if type(op) in (ast.Eq, ast.NotEq, ast.Lt, ast.LtE, ast.Gt, ast.GtE) else (self._unknown("comparison") if not isinstance(op, (ast.Is, ast.IsNot)) else ((a is b) == isinstance(op, ast.Is)))
             if isinstance(op, (ast.Lt, ast.LtE, ast.Gt, ast.GtE)) and (isinstance(a, (str, list, tuple)) or a is None) != (isinstance(b, (str, list, tuple)) or b is None):
@@ -291,6 +299,14 @@ class ShapeEval(AxisEval):
                 return shp[i]
             raise Unknown("size(symbolic)")
         if name == "len" and len(c.args) == 1:
+            try:
+                lay = self.ev(c.args[0])
+            except Unknown:
+                lay = None
+            if lay is not None:
+                if not lay:
+                    raise RaisesExc("TypeError", c)
+                return Sz([a[1] for a in lay[0]])
             return len(self._seq(self.py(c.args[0])))
         if name in ("list", "tuple", "Size") and len(c.args) <= 1:
             return self._seq(self.py(c.args[0])) if c.args else []
@@ -421,7 +437,8 @@ class ShapeEval(AxisEval):
     def _rep_atom(self, v):
         syms = self._syms(v)
         label = "rep[%s]" % "*".join(str(s[-1]) if isinstance(s, tuple) else str(s) for s in syms)
-        return (label, ("rep",) + tuple(map(repr, syms)), False)
+        size = syms[0] if len(syms) == 1 else ("prod",) + tuple(map(repr, syms))
+        return (label, size, False)
 
     def call(self, c):
         f = c.func
@@ -522,6 +539,8 @@ class ShapeEval(AxisEval):
                 return self._shape_op(name, recv, args, c)
             if recv is not None and name in ("sum", "mean", "prod") and is_mod:
                 return self._reduce(self.ev(recv), c, args)
+            if is_mod and name in ("as_tensor", "tensor", "clone", "detach", "contiguous") and c.args:
+                return self.ev(c.args[0])
             # a helper of the repository: evaluate its body
             if self.program is not None and (is_mod and f.value.id == "torchutils"):
                 return self._repo_call(name, c)
